@@ -76,6 +76,9 @@ def parseOp (s : State) (j : Json) : Option Op :=
   | [Json.str "create", Json.str k, p, Json.str inp] => do
     let k ← kindOf k; let p ← jInt? p; let inp ← inputOf inp
     if p < 0 then none else some (.create k p.toNat inp)
+  | [Json.str "copy", src, p] => do
+    let src ← jInt? src; let p ← jInt? p
+    if src < 0 || p < 0 then none else some (.copy src.toNat p.toNat)
   | [Json.str "call", e, via, Json.str m, Json.str inp] => do
     let e ← jInt? e; let m ← Mem.ofString m; let inp ← inputOf inp
     if e < 0 then none else
